@@ -115,7 +115,38 @@ func c05Bases() []*c05Base {
 	}
 }
 
-var c05BaseList = c05Bases()
+// c05Reordered returns base with its sections re-ordered (responses stays last) and, optionally,
+// an extra known section inserted in front: layouts the repository's writer never produces but
+// the format allows (e.g. "manifest" ahead of "index", a manifest section in a b2 bundle).
+func c05Reordered(name string, base *c05Base, extraName string, extraData []byte) *c05Base {
+	r := base.ref
+	var names []string
+	var data [][]byte
+	if extraName != "" {
+		names, data = append(names, extraName), append(data, extraData)
+	}
+	// non-responses sections in reverse order
+	for i := len(r.Sections) - 2; i >= 0; i-- {
+		names, data = append(names, r.Sections[i].Name), append(data, r.SectionData[i])
+	}
+	names, data = append(names, "responses"), append(data, r.SectionData[len(r.Sections)-1])
+	file := refbx.Rebuild(r.Version, r.Prefix, names, data)
+	ref, err := refbx.Extract(file)
+	if err != nil {
+		panic("c05: reordered base " + name + " does not extract: " + err.Error())
+	}
+	return &c05Base{name: name, version: base.version, file: file, ref: ref}
+}
+
+func c05AllBases() []*c05Base {
+	bs := c05Bases()
+	man := refcbor.EncText("https://ex.test/manifest.webmanifest")
+	// b2 with a manifest section ahead of index and primary; b1 with signatures/manifest ahead of index
+	bs = append(bs, c05Reordered("b2-man-first", bs[2], "manifest", man), c05Reordered("b1-reordered", bs[4], "", nil))
+	return bs
+}
+
+var c05BaseList = c05AllBases()
 
 // ---- what the reader did ----
 
@@ -304,9 +335,9 @@ func init() {
 	gen := func(c *mc.Ctx) interface{} {
 		nb := len(c05BaseList)
 		if c.Quick() {
-			nb = 4
+			nb = 6
 		}
-		base := c05BaseList[[]int{1, 2, 3, 5, 0, 4}[c.Free(nb, "base")]]
+		base := c05BaseList[[]int{1, 2, 3, 5, 6, 7, 0, 4}[c.Free(nb, "base")]]
 		file := base.file
 		kind := c.Dev(9, "mutation-kind")
 		switch kind {
@@ -544,7 +575,7 @@ func init() {
 	register(&mc.Property{
 		ID:          "C05",
 		Level:       "model_checking",
-		Rule:        "choice-tree enumeration of inputs to bundle.Read in watchdog-supervised workers: 4 (quick) / 6 (thorough) base bundles built by the reference encoder (b1/b2, 1-3 exchanges, primary/manifest/signatures sections, a b1 variants entry) x one structure-aware mutation: every length/offset/count head of the reference's field map replaced by each of 9 boundary values (0, exact+-1, file size, 2^32, 2^63-1, 2^63, 2^64-1, exact+2^63; thorough: pairs of fields), truncation at every offset, every byte set to 5 values (quick) / all 256 (thorough), offset/length pairs whose sum wraps around 2^64, an unknown section inserted consistently at every position (must be stepped over), the section table permuted / an entry duplicated / dropped, an unknown section listed without content. Oracle: refbx.Extract (location-strict, encoding-lenient). Non-trivial = the reference produced a verdict the reader had to match (content equality, must-refuse location, must-accept unknown section); distinct by input hash.",
+		Rule:        "choice-tree enumeration of inputs to bundle.Read in watchdog-supervised workers: 6 (quick) / 8 (thorough) base bundles built by the reference encoder (b1/b2, 1-3 exchanges, primary/manifest/signatures sections, a b1 variants entry, two with the sections in an order the repository's writer never produces: manifest ahead of index in a b2 bundle, signatures/manifest ahead of index in b1) x one structure-aware mutation: every length/offset/count head of the reference's field map replaced by each of 9 boundary values (0, exact+-1, file size, 2^32, 2^63-1, 2^63, 2^64-1, exact+2^63; thorough: pairs of fields), truncation at every offset, every byte set to 5 values (quick) / all 256 (thorough), offset/length pairs whose sum wraps around 2^64, an unknown section inserted consistently at every position (must be stepped over), the section table permuted / an entry duplicated / dropped, an unknown section listed without content. Oracle: refbx.Extract (location-strict, encoding-lenient). Non-trivial = the reference produced a verdict the reader had to match (content equality, must-refuse location, must-accept unknown section); distinct by input hash.",
 		Assumptions: []string{"refbx extracts at least what bundle.Read accepts (any well-formed CBOR head, any key order) and is exact about locations", "inputs the reference can extract but the reader refuses for its own stricter rules (URL syntax, header-name case, ASCII) are not judged", "header maps with duplicate names are not judged (the property does not say which value a reader returns)"},
 		Harnesses:   []*mc.Harness{h},
 		Guard: func(s map[string]*mc.Stats) error {
